@@ -26,6 +26,7 @@ CLAUSE_OF = {
     "P13": ("C12", "receive maximum: the peer was refused with 0x93 although it stayed within its quota, or exceeded "
                    "it and was not refused with 0x93"),
     "P14": ("C11", "a PUBLISH whose identifier was still in use reached a handler"),
+    "P15": ("C18", "a SUBSCRIBE / UNSUBSCRIBE carrying a malformed topic filter reached the protocol service"),
     "P9": ("C17", "a handler saw a topic that is not the latest binding of the alias used"),
 }
 # recorded findings that the scan can hit (see known_findings.json)
@@ -268,6 +269,35 @@ def p14(v, case, obs):
     return []
 
 
+def p15(v, case, obs):
+    """C18 at dispatcher level: a SUBSCRIBE / UNSUBSCRIBE whose filter list contains a malformed filter never
+    reaches the protocol service: the invocations of kind Subscribe (Unsubscribe) cannot outnumber the
+    SUBSCRIBE (UNSUBSCRIBE) packets sent with well-formed filters only (templates 1, 2)"""
+    if obs == "9999":
+        return []
+    fields = [[int(t) for t in f.split(",")] for f in case.split(";")]
+    ops = fields[1:]
+    of = obs.split(";")
+    if len(of) != len(ops):
+        return []
+    sent = {2: 0, 3: 0}
+    seen = {2: 0, 3: 0}
+    for n, (op, f) in enumerate(zip(ops, of)):
+        try:
+            wire, hs, ps, stop1, nstop, is_open = I.parse_obs(f)
+        except ValueError:
+            return []
+        if op[0] == 1 and op[1] in (6, 7) and len(op) >= 4 and op[3] in (1, 2):
+            sent[op[1] - 4] += 1
+        for (c, kind) in ps:
+            if kind in seen:
+                seen[kind] += 1
+                if seen[kind] > sent[kind]:
+                    return ["P15 the protocol service got %s number %d, only %d were sent with well-formed filters "
+                            "(op %d)" % ("Subscribe" if kind == 2 else "Unsubscribe", seen[kind], sent[kind], n + 1)]
+    return []
+
+
 class InbPart(Part):
     SHRINK_FIELDS_FIRST = True
     SHRINK_FIELDS_ONLY = True
@@ -294,6 +324,8 @@ class InbPart(Part):
             bad = bad + p12(self.ver, case, obs, client=self.engine == "cli5")
         if "C11" in self.want and self.engine.startswith("inb"):
             bad = bad + p14(self.ver, case, obs)
+        if "C18" in self.want and self.engine.startswith("inb"):
+            bad = bad + p15(self.ver, case, obs)
         elif "C12" in self.want and self.engine == "inb5":
             # receive maximum: 0x93 for a peer within its quota, or another code for a peer over it
             bad = bad + [b.replace("P12 ", "P13 ") for b in p12(self.ver, case, obs) if "147" in b]
